@@ -204,7 +204,7 @@ CHECKS = {
              "meta-fields and introspection selections, identical repeated fields, one-key subscriptions) on generated schemas; "
              "inside Coq every document must satisfy all 25 specification predicates (else the generator is at fault) and the "
              "implementation model's error set must equal the engine's; the engine must not answer with any rule-tagged or "
-             "generic validation error. PARTIAL: what remains between this characterisation and the specification's own predicates (Model/SpecValidate.v): single-root-field through fragment SPREADS (visited-set traversal), and the node predicates' field lookup (= the specification's except `__typename` in interface scopes: recorded finding); decided per document by the specification verdict evaluated in Coq.",
+             "generic validation error. PARTIAL: what remains between this characterisation and the specification's own predicates (Model/SpecValidate.v): the node predicates' field lookup (= the specification's except `__typename` in interface scopes: recorded finding); decided per document by the specification verdict evaluated in Coq.",
         note="Trusted: Coq kernel, generators, parser stand-in (which texts parse, locations), scalar translator for literal "
              "leaves. Field-selection-merging (5.3.2) is not implemented by the engine; generated documents satisfy it by "
              "construction.",
@@ -239,8 +239,10 @@ CHECKS = {
              "fragment reachable through spreads, so an undeclared, an unused or a wrongly typed directly-used variable -- in "
              "the operation, a nested selection, a directive argument or a fragment reached through any chain of spreads -- makes "
              "the document not accepted. Two "
-             "recorded findings (known_findings.json) are attributed by Coq-evaluated region predicates. PARTIAL: completeness "
-             "of the other rules at every site is decided per document, not proved.",
+             "recorded findings (known_findings.json) are attributed by Coq-evaluated region predicates. single-root-field is EXACT "
+             "through fragment spreads too (Proofs/SingleRootSpreads.v: the visited-set traversal collects every reachable root "
+             "key, cyclic spread graphs included). PARTIAL: the link between the node predicates' field lookup and the "
+             "specification's (differs for `__typename` in interface scopes: recorded finding) is decided per document.",
         note="Trusted: as C06. Documents with non-executable definitions are outside the document model (engine side only).",
         design="4 C07"),
     "C11": dict(
